@@ -282,7 +282,7 @@ def run_check(engine_name, prop, tier, seed):
                 break
             order.extend(layer)
             depth += 1
-        max_shrunk = plan.get("max_shrunk", 24)
+        max_shrunk = plan.get("max_shrunk", 48)
         jobs = []
         for s in order[:max_shrunk]:
             jobs.append((s, ex.submit(_shrink, engine_name, prop, tier, s["record"], s["violation"])))
